@@ -10,6 +10,7 @@ import OG.C07.LemmasInt
 import OG.C07.LemmasTime
 import OG.C07.LemmasBool
 import OG.C07.LemmasFloat
+import OG.C07.LemmasWal
 
 namespace OG.C07
 open OG.Gen.C07
@@ -416,5 +417,69 @@ example : encodeFloat ⟨fun _ => true, fun _ => true⟩ (fun b => b) (fun _ => 
 example : floatMode ⟨fun _ => true, fun _ => true⟩
     [1#64, 2#64, 3#64, 4#64, 5#64, 6#64, 7#64, 8#64, 9#64, 0x7ff0000000000000#64, 0xfff0000000000000#64]
     = .snappy := by decide
+
+/-! ## write-ahead log records -/
+
+/-- the reader, as the source has it now, decodes only completely read bodies (regenerated). -/
+theorem walCfgNow_strict : walCfgNow = ⟨false, false⟩ := by rfl
+
+/-- **a record cut short by a crash is recognised as incomplete**: for every valid record
+(`type` 1 or 2, any payload) and every *strict* prefix `p` of its frame — header-only prefixes
+included — the reader reports end of file and hands nothing to the callback, whatever its
+pooled buffer held before, whatever snappy and the row unmarshaller would make of that buffer. -/
+theorem wal_prefix_safe (snappy : Bytes → Bytes) (unsnappy : Bytes → Option Bytes)
+    (rowsOK : Bytes → Bool) (stale : Bytes) (ty : Nat) (payload : Bytes)
+    (hl : (snappy payload).length < 2 ^ 32)
+    (k : Nat) (hk : k < (walFrame snappy ty payload).length) :
+    (walStep walCfgNow unsnappy rowsOK stale ((walFrame snappy ty payload).take k)).1 = .eof := by
+  rw [walCfgNow_strict]
+  cases hres : (walStep ⟨false, false⟩ unsnappy rowsOK stale ((walFrame snappy ty payload).take k)).1 with
+  | eof => rfl
+  | record t body =>
+    exfalso
+    obtain ⟨h5, hlen⟩ := walStep_record_complete _ _ _ _ _ _ hres
+    have hkl : ((walFrame snappy ty payload).take k).length = k := by
+      rw [List.length_take]; omega
+    rw [hkl] at h5 hlen
+    rw [walFrame_prefix_len snappy ty payload k h5 hl, ← walFrame_length snappy ty payload] at hlen
+    omega
+
+/-- the code as it was (`err == nil || err == io.EOF`): a header-only prefix made the reader
+decode whatever the pooled buffer held — here the previous record, delivered a second time. -/
+theorem wal_prefix_unsafe_asWritten :
+    ∃ (stale p : Bytes) (unsnappy : Bytes → Option Bytes),
+      p = (walFrame (fun b => b) 2 [7, 7, 7]).take 5 ∧
+      (walStep ⟨true, false⟩ unsnappy (fun _ => true) stale p).1 = .record 2 [7, 7, 7] := by
+  refine ⟨[7, 7, 7], _, some, rfl, ?_⟩
+  decide
+
+/-- a complete frame is read back as its record (for the repaired reader), leaving the rest. -/
+theorem wal_frame_read (snappy : Bytes → Bytes) (unsnappy : Bytes → Option Bytes)
+    (hs : ∀ b, unsnappy (snappy b) = some b) (rowsOK : Bytes → Bool) (stale rest : Bytes)
+    (ty : Nat) (payload : Bytes) (hty : 0 < ty ∧ ty < 3) (hrows : ty = 1 → rowsOK payload = true)
+    (hl : (snappy payload).length < 2 ^ 32) :
+    (walStep walCfgNow unsnappy rowsOK stale (walFrame snappy ty payload ++ rest)).1
+      = .record ty payload ∧
+    (walStep walCfgNow unsnappy rowsOK stale (walFrame snappy ty payload ++ rest)).2.2 = rest := by
+  have p4 : (256 : Nat) ^ 4 = 2 ^ 32 := by decide
+  have hb : (UInt8.ofNat ty).toNat = ty := u8_toNat_ofNat_lt (by omega)
+  have hstep := walStep_complete walCfgNow unsnappy rowsOK stale (walFrame snappy ty payload ++ rest)
+    ty (snappy payload).length (snappy payload) rest
+    (by simp [walFrame]) (by simp [walFrame, hb]) hty
+    (by
+      simp only [walFrame, List.cons_append, List.drop_succ_cons, List.drop_zero, List.append_assoc]
+      rw [take_app _ _ _ (by simp), unbe_be, p4]; exact Nat.mod_eq_of_lt hl)
+    (by
+      simp only [walFrame, List.cons_append, List.drop_succ_cons, List.append_assoc]
+      exact drop_app _ _ _ (by simp))
+    rfl
+  rw [hstep]
+  refine ⟨?_, rfl⟩
+  show walDecode unsnappy rowsOK ty (snappy payload) = _
+  unfold walDecode
+  rw [hs]
+  by_cases h1 : ty = 1
+  · simp [h1, hrows h1]
+  · simp [h1]
 
 end OG.C07
